@@ -173,8 +173,8 @@ inductive Op
   | drop (sd : Side) (j : Nat)
   /-- a cull moved key `k` from the strong to the weak map -/
   | weaken (sd : Side) (k : Key)
-  /-- a cull removed the dead weak entries -/
-  | purge (sd : Side)
+  /-- a cull of class `cls`'s cache removed its dead weak entries -/
+  | purge (sd : Side) (cls : Nat)
   | commit (close : Bool)
   | rollback
   | begin
@@ -193,7 +193,7 @@ inductive Out
 
 def Op.side : Op → Side
   | .create sd .. | .get sd .. | .read sd .. | .set sd .. | .destroy sd .. | .expire sd .. | .select sd ..
-  | .drop sd .. | .weaken sd .. | .purge sd => sd
+  | .drop sd .. | .weaken sd .. | .purge sd .. => sd
   | .commit _ | .rollback | .begin => .T
 
 def Op.isCommit : Op → Bool
@@ -296,9 +296,10 @@ def Conn.weaken (c : Conn) (k : Key) : Conn :=
     else { c with strong := upd c.strong k none }
   | none => c
 
-def Conn.purge (c : Conn) : Conn :=
+/-- the first phase of `cull` on the cache of class `cls`: dead weak entries are removed -/
+def Conn.purge (c : Conn) (cls : Nat) : Conn :=
   { c with weak := fun k => match c.weak k with
-      | some j => if c.alive j then some j else none
+      | some j => if k / 1000 = cls ∧ c.alive j = false then none else some j
       | none => none }
 
 /-- the transaction's `allIDs()` of the key's class cache, plus the deleted log -/
@@ -343,7 +344,7 @@ def step (s : St) : Op → St × Out
   | .select sd cls => opSelect s sd cls
   | .drop sd j => opDrop s sd j
   | .weaken sd k => (s.setConn sd ((s.conn sd).weaken k), .ok)
-  | .purge sd => (s.setConn sd (s.conn sd).purge, .ok)
+  | .purge sd cls => (s.setConn sd ((s.conn sd).purge cls), .ok)
   | .commit close => opCommit s close
   | .rollback => opRollback s
   | .begin => opBegin s
